@@ -38,6 +38,8 @@ BATTERY = [
     {'items': [{'e': ['concat', ['a', 0], ['lit', '-']]}]},
     {'items': [{'e': ['a', 0]}, {'unnest': ['split', ['a', 1], ';']}]},
     {'items': [{'unnest': ['split', ['a', 0], ';']}, {'e': ['nr']}], 'where': ['lt', ['nr'], ['lit', qgen.num(2)]]},
+    {'items': [{'e': ['nr']}, {'unnest': ['splitne', ['a', 0], ';']}, {'e': ['a', 1]}]},
+    {'items': [{'unnest': ['splitne', ['a', 1], 'x']}], 'where': ['ne', ['a', 0], ['lit', None]]},
     {'items': [], 'except': [0]},
     {'items': [], 'except': [1, 0]},
     {'items': [{'e': ['len', ['a', 0]]}], 'where': ['like', ['a', 0], 'x%']},
@@ -87,7 +89,7 @@ def gen_random(rnd, n):
                     q['items'].append('starB')
                 elif r < 0.95 and (not has_unnest or rnd.random() < 0.1):
                     has_unnest = True
-                    q['items'].append({'unnest': ['split', ['a', rnd.randrange(ncols)], rnd.choice([';', 'x', ' '])]})
+                    q['items'].append({'unnest': [rnd.choice(['split', 'splitne']), ['a', rnd.randrange(ncols)], rnd.choice([';', 'x', ' '])]})
                 else:
                     q['items'].append({'e': qgen.gen_bool_expr(rnd, ncols, 1)})
         if rnd.random() < 0.55:
